@@ -35,13 +35,17 @@ def mods():
     return dataflow, graph, node
 
 
-def make_graph(graph, node, shape, kinds, edges, exit_last):
-    """shape: statements per node; kinds: flat list of KINDS indices; edges: set of (i, j)"""
+def make_graph(graph, node, shape, kinds, edges, exit_last, cedges=()):
+    """shape: statements per node; kinds: flat list of KINDS indices; edges: set of (i, j); cedges: catch edges (i, j)"""
     class N(node.Node):
         def __init__(self, name, lins):
             super().__init__(name)
             self.lins = lins
             self.in_catch = False
+            self.catch_type = None
+
+        def set_catch_type(self, t):
+            self.catch_type = t
 
         def get_loc_with_ins(self):
             return list(self.lins)
@@ -65,6 +69,8 @@ def make_graph(graph, node, shape, kinds, edges, exit_last):
     g.entry = nodes[0]
     for (i, j) in sorted(edges):
         g.add_edge(nodes[i], nodes[j])
+    for (i, j) in sorted(cedges):
+        g.add_catch_edge(nodes[i], nodes[j])
     g.exit = nodes[-1] if exit_last else None
     return g, nodes
 
@@ -135,7 +141,8 @@ def reference(nodes, edges, params):
 
 
 def job(jc, spec):
-    shape, first, nparams, exit_last = spec
+    shape, first, nparams, exit_last = spec[:4]
+    catch = len(spec) > 4 and spec[4] == 'catch'
     dataflow, graph, node = mods()
     eng = jc.new_engine(max_paths=10 ** 8)
     n = len(shape)
@@ -145,17 +152,26 @@ def job(jc, spec):
     def go():
         kinds = list(first) + [eng.choose(len(KINDS)) for _ in range(nst - len(first))]
         edges = set()
+        cedges = set()
         for i in range(n):
             for j in range(n):
+                if catch and i == j:
+                    continue            # the catch family has no self-loops
                 if eng.choose(2):
                     edges.add((i, j))
-        g, nodes = make_graph(graph, node, shape, kinds, edges, exit_last)
-        if not reachable(nodes, edges):
+        if catch:
+            # exactly one catch edge, between any two different nodes that have no normal edge
+            free = [(i, j) for i in range(n) for j in range(n) if i != j and (i, j) not in edges]
+            if not free:
+                return None
+            cedges.add(free[eng.choose(len(free))])
+        g, nodes = make_graph(graph, node, shape, kinds, edges, exit_last, cedges)
+        if not reachable(nodes, edges | cedges):
             return None
         g.compute_rpo()
         params = list(REGS[:nparams])
         UD, DU = dataflow.build_def_use(g, params)
-        ref = reference(nodes, edges, params)
+        ref = reference(nodes, edges | cedges, params)
         bad = []
         got = {k: set(v) for k, v in UD.items()}
         for k in set(ref) | set(got):
@@ -169,7 +185,7 @@ def job(jc, spec):
             bad.append('DU is not the inverse of UD')
         if any(len(v) != len(set(v)) for v in UD.values()):
             pass        # duplicate entries in a chain are tolerated (compared as sets)
-        return bad, kinds, sorted(edges)
+        return bad, kinds, sorted(edges), sorted(cedges)
     count = 0
     for pc, (kind, r) in eng.explore(go):
         if kind == 'exc':
@@ -179,10 +195,11 @@ def job(jc, spec):
             continue
         count += 1
         jc.reached('explored')
-        bad, kinds, edges = r
+        bad, kinds, edges, cedges = r
         eng.st.obligations += 1
         if bad:
-            jc.concrete_violation(dict(shape=list(shape), kinds=kinds, edges=[list(e) for e in edges], params=nparams, exit_last=exit_last),
+            jc.concrete_violation(dict(shape=list(shape), kinds=kinds, edges=[list(e) for e in edges], params=nparams, exit_last=exit_last,
+                                       catch_edges=[list(e) for e in cedges]),
                                   label=label, what=bad[0])
         else:
             eng.st.discharged += 1
@@ -199,12 +216,17 @@ def run(ctx):
         for first in itertools.product(range(len(KINDS)), repeat=nf):
             for nparams in (0, 1):
                 jobs.append((shape, first, nparams, nparams == 1))
+    for first in itertools.product(range(len(KINDS)), repeat=1):
+        for nparams in (0, 1):
+            jobs.append(((1, 1, 1), first, nparams, nparams == 1, 'catch'))
     ctx.bounds = dict(programs=['2 nodes x 2 statements', '3 nodes x 1 statement'] + (['3 nodes with 2/1/1 and 1/2/1 statements'] if ctx.thorough else []),
                       statement='each statement: defines none / r0 / r1 and uses any subset of {r0, r1}', registers=2,
-                      edges='every edge set (self-loops included) that keeps all nodes reachable', params='0 or 1 parameter (r0)')
+                      edges='every edge set (self-loops included) that keeps all nodes reachable', params='0 or 1 parameter (r0)',
+                      catch_edges='3 nodes x 1 statement: every set of normal edges without self-loops plus exactly one catch edge')
     ctx.stubs = ['real Graph / Node / DummyNode; statements are plain objects with get_lhs / get_used_vars']
-    ctx.assumptions = ['chains are compared as sets', 'uses of a register that has no definition at all are skipped (as the code documents)']
-    ctx.outside_claim = ['larger programs; catch edges; the decompiler passes that consume the chains',
+    ctx.assumptions = ['chains are compared as sets', 'a catch edge carries the definitions that are live at the end of its source node '
+                       '(what the analysis documents; an exception thrown before the statement took effect is not modelled)', 'uses of a register that has no definition at all are skipped (as the code documents)']
+    ctx.outside_claim = ['larger programs; several catch edges at once; the decompiler passes that consume the chains',
                          'no solver query is involved: free inputs fork by enumeration']
     ctx.diff_unhooked(sys.modules[__name__], [dict(shape=[2, 2], kinds=[4, 1, 8, 3], edges=[[0, 1], [1, 0]], params=1, exit_last=True),
                                               dict(shape=[1, 1, 1], kinds=[4, 5, 1], edges=[[0, 1], [1, 2], [2, 1]], params=0, exit_last=False)])
@@ -213,7 +235,8 @@ def run(ctx):
 
 def _run(w):
     from androguard.decompiler import dataflow, graph, node
-    g, nodes = make_graph(graph, node, tuple(w['shape']), w['kinds'], {tuple(e) for e in w['edges']}, w['exit_last'])
+    g, nodes = make_graph(graph, node, tuple(w['shape']), w['kinds'], {tuple(e) for e in w['edges']}, w['exit_last'],
+                          {tuple(e) for e in w.get('catch_edges', [])})
     g.compute_rpo()
     params = list(REGS[:w['params']])
     UD, DU = dataflow.build_def_use(g, params)
@@ -231,7 +254,7 @@ def replay(w):
         got, nodes, params = _run(w)
     except Exception as e:
         return True, 'program %r raised %r' % (w, e)
-    ref = {repr(k): sorted(v) for k, v in reference(nodes, {tuple(e) for e in w['edges']}, params).items()}
+    ref = {repr(k): sorted(v) for k, v in reference(nodes, {tuple(e) for e in w['edges']} | {tuple(e) for e in w.get('catch_edges', [])}, params).items()}
     diff = [k for k in set(got) | set(ref) if got.get(k, []) != ref.get(k, [])]
-    prog = [[KINDS[k] for k in w['kinds']], w['edges']]
+    prog = [[KINDS[k] for k in w['kinds']], w['edges'], 'catch edges', w.get('catch_edges', [])]
     return bool(diff), 'program %r: %s' % (prog, '; '.join('use %s: linked %s, reaching %s' % (k, got.get(k, []), ref.get(k, [])) for k in diff[:3]))
